@@ -399,7 +399,10 @@ def comprehension(self, n, env, kind):
     self.assume(qforall([j], z3.Implies(inj, z3.And(body_at(idx(j)), pos(idx(j)) == j)), patterns=[hint.get(r, j)]))
     self.assume(qforall([j, j2], z3.Implies(z3.And(inj, j2 >= 0, j2 < hint.len(r), j < j2), idx(j) < idx(j2)),
                         patterns=[z3.MultiPattern(idx(j), idx(j2))]))
-    self.assume(qforall([k], z3.Implies(cond, z3.And(pos(k) >= 0, pos(k) < hint.len(r), idx(pos(k)) == k)), patterns=[pos(k)]))
+    pats = [pos(k)]
+    if z3.is_app(el.t) and el.t.num_args() > 0 and el.t.decl().kind() in (z3.Z3_OP_UNINTERPRETED, z3.Z3_OP_SELECT, z3.Z3_OP_DT_ACCESSOR):
+      pats.append(el.t)     # a source item that passes the conditions has a position in the result
+    self.assume(qforall([k], z3.Implies(cond, z3.And(pos(k) >= 0, pos(k) < hint.len(r), idx(pos(k)) == k)), patterns=pats))
     res = SV(hint, r)
   elif kind in ('list', 'tuple'):
     r = hint.const('comp')
